@@ -47,7 +47,7 @@ class C03(Prop):
     ID = "C03"
     RULE = ("unary operations on every epsilon-NFA of FA(n,{a,b},t) modulo renaming; binary operations on ordered pairs "
             "from the iso-reduced pools P1=FA(2,2,<=1), P2=FA(2,2,<=2) with the second operand over {a,b} or {b,c}, state "
-            "names shared between operands, and a op a on the same object; non-trivial = result language non-empty")
+            "names shared between operands or chosen so that two different state pairs have one spelling, and a op a on the same object; non-trivial = result language non-empty")
     BOUNDS = "operands <= 3 states; every comparison exact (product BFS over subset automata)"
     CLAUSES = ["C03.complement.lang", "C03.intersection.lang", "C03.difference.lang", "C03.reverse.lang",
                "C03.union.lang", "C03.concatenate.lang", "C03.kleene_star.lang", "C03.<op>.operator_form",
